@@ -1,6 +1,7 @@
 package c17
 
 import (
+	"encoding/json"
 	"fmt"
 	"strings"
 	"testing"
@@ -15,6 +16,7 @@ import (
 	"verif/gen/lexgen"
 	"verif/gen/sqlgen"
 	"verif/internal/hx"
+	"verif/internal/lspx"
 	"verif/internal/obs"
 )
 
@@ -201,7 +203,12 @@ func genHostile(rt *rapid.T) (string, []string) {
 			text := t.Text
 			// swap some literals / identifiers for hostile ones
 			if strings.HasPrefix(text, "'") && rapid.IntRange(0, 2).Draw(rt, "hs") == 0 {
-				text = rapid.SampledFrom(hostileStrings).Draw(rt, "hstr")
+				pool := hostileStrings
+				if hx.Allowed("c17.backslash_quote") {
+					// backslash-escaped quotes (a listed finding switches them off)
+					pool = append(append([]string{}, hostileStrings...), `'it\'s  fine'`, `'a\'  select  b'`)
+				}
+				text = rapid.SampledFrom(pool).Draw(rt, "hstr")
 				if strings.Contains(text, "\n") {
 					cl["multiline_literal"] = true
 				}
@@ -439,5 +446,113 @@ func TestLayoutRulesExact(t *testing.T) {
 		hx.Case("layout_rules_exact", len(cl) > 0, strings.Join(cl, ",")+fmt.Sprint(len(text)/16), cl...)
 		hx.Sample("layout_rules_exact", text)
 		return ExactCase{Text: text}
+	})
+}
+
+// ---------------------------------------------------------------- the language server's format action
+
+type LSPFormatCase struct {
+	Text    string `json:"text"`
+	TabSize int    `json:"tab_size"`
+	Spaces  bool   `json:"insert_spaces"`
+}
+
+// lspFormat opens text in a fresh server, asks for textDocument/formatting and
+// applies the returned edits to text under the protocol's position rules.
+func lspFormat(text string, tabSize int, spaces bool) (string, error) {
+	c := lspx.Start()
+	defer c.Close()
+	uri := "file:///f.sql"
+	tj, _ := json.Marshal(text)
+	c.Send(`{"jsonrpc":"2.0","id":"i","method":"initialize","params":{"capabilities":{}}}`)
+	c.Send(fmt.Sprintf(`{"jsonrpc":"2.0","method":"textDocument/didOpen","params":{"textDocument":{"uri":%q,"languageId":"sql","version":1,"text":%s}}}`, uri, tj))
+	c.Send(fmt.Sprintf(`{"jsonrpc":"2.0","id":"f","method":"textDocument/formatting","params":{"textDocument":{"uri":%q},"options":{"tabSize":%d,"insertSpaces":%v}}}`, uri, tabSize, spaces))
+	if err := c.Sync("s"); err != nil {
+		return "", fmt.Errorf("server did not survive the formatting request: %v", err)
+	}
+	frames, died, ferr := c.Snapshot()
+	if died != "" || ferr != nil {
+		return "", fmt.Errorf("server trouble: %s %v", died, ferr)
+	}
+	for _, f := range frames {
+		if f.HasID && f.ID == "f" {
+			if len(f.Error) > 0 && string(f.Error) != "null" {
+				return text, nil // the request was refused: nothing is rewritten
+			}
+			var edits []struct {
+				Range struct {
+					Start, End struct{ Line, Character int }
+				}
+				NewText string
+			}
+			if len(f.Result) == 0 || string(f.Result) == "null" {
+				return text, nil
+			}
+			if err := json.Unmarshal(f.Result, &edits); err != nil {
+				return "", fmt.Errorf("formatting result does not parse: %v", err)
+			}
+			out := text
+			// edits are applied from the last to the first so earlier offsets stay valid
+			for i := len(edits) - 1; i >= 0; i-- {
+				e := edits[i]
+				var ok bool
+				out, ok = lspx.Apply(out, e.Range.Start.Line, e.Range.Start.Character, e.Range.End.Line, e.Range.End.Character, e.NewText)
+				if !ok {
+					return "", fmt.Errorf("formatting returned an invalid range %+v", e.Range)
+				}
+			}
+			return out, nil
+		}
+	}
+	return "", fmt.Errorf("no response to the formatting request")
+}
+
+func oracleLSPFormat(c LSPFormatCase) error {
+	inToks, inComments, err := view(c.Text)
+	if err != nil {
+		return nil
+	}
+	out, err := lspFormat(c.Text, c.TabSize, c.Spaces)
+	if err != nil {
+		return err
+	}
+	outToks, outComments, err := view(out)
+	if err != nil {
+		return fmt.Errorf("the formatted document no longer tokenizes (%v)\n in:  %q\n out: %q", first(err), c.Text, out)
+	}
+	if len(inToks) != len(outToks) {
+		return fmt.Errorf("formatting changed the number of tokens from %d to %d\n in:  %q\n out: %q", len(inToks), len(outToks), c.Text, out)
+	}
+	for i := range inToks {
+		if inToks[i] != outToks[i] {
+			return fmt.Errorf("formatting changed token %d from %s %q to %s %q\n in:  %q\n out: %q", i, inToks[i].kind, inToks[i].value, outToks[i].kind, outToks[i].value, c.Text, out)
+		}
+	}
+	if fmt.Sprint(inComments) != fmt.Sprint(outComments) {
+		return fmt.Errorf("formatting changed comment text: %q -> %q\n in:  %q\n out: %q", inComments, outComments, c.Text, out)
+	}
+	again, err := lspFormat(out, c.TabSize, c.Spaces)
+	if err != nil {
+		return err
+	}
+	if again != out {
+		return fmt.Errorf("formatting the formatted document changes it again\n first:  %q\n second: %q", out, again)
+	}
+	return nil
+}
+
+var lspFormatCheck = hx.NewCheck("lsp_format_preserves_tokens", oracleLSPFormat)
+
+func TestLSPFormatPreservesTokens(t *testing.T) {
+	hx.Rule("lsp_format_preserves_tokens", "same hostile texts opened in a real language server; textDocument/formatting is requested (tab sizes 0, 2, 4, 8 and -1, spaces or tabs) and the returned edits are applied under the protocol's UTF-16 position rules; token sequence and comments preserved, second formatting is a no-op; non-trivial/distinct as fix_preserves_tokens")
+	lspFormatCheck.Rapid(t, hx.N(1500, 60000), func(rt *rapid.T) LSPFormatCase {
+		text, cl := genHostile(rt)
+		if rapid.IntRange(0, 3).Draw(rt, "nonascii") == 0 {
+			text = "SELECT 'é𝄞 ünï' , \"ç\"\n" + text + "\n  -- çé𝄞"
+		}
+		c := LSPFormatCase{Text: text, TabSize: rapid.SampledFrom([]int{2, 4, 0, 8, -1}).Draw(rt, "tab"), Spaces: rapid.Bool().Draw(rt, "spaces")}
+		hx.Case("lsp_format_preserves_tokens", len(cl) > 0, strings.Join(cl, ",")+fmt.Sprint(len(text)/16, c.TabSize, c.Spaces), cl...)
+		hx.Sample("lsp_format_preserves_tokens", text)
+		return c
 	})
 }
